@@ -8,7 +8,7 @@ from manifest_text import TEXT, PENDING
 props = [json.loads(l)["id"] for l in open("properties.jsonl")]
 checks = []
 for pid in props:
-    if pid not in CHECKS:
+    if pid not in CHECKS or not os.path.exists("coq/props/%s.v" % pid):
         continue
     t = TEXT[pid]
     checks.append({
@@ -33,7 +33,7 @@ m = {
                  "kind_free_text": "hand-written Gallina model with machine-checked theorems (Coq 8.16.1), extracted to OCaml and run against the real Go packages on generated operation histories; go/ast translators regenerate the table-shaped parts of the model"}],
     "checks": checks,
     "notes": "See DESIGN.md. Known findings are in KNOWN_FINDINGS.txt; repairs of genuine defects are the 'fix:' commits of /repo.",
-    "not_applicable": [{"property_id": p, "reason": PENDING.get(p, "machinery for this property is not built yet")} for p in props if p not in CHECKS],
+    "not_applicable": [{"property_id": p, "reason": PENDING.get(p, "machinery for this property is not built yet")} for p in props if p not in [c["property_id"] for c in checks]],
 }
 json.dump(m, open("MANIFEST.json", "w"), indent=1)
 print("claimed:", [c["property_id"] for c in checks])
